@@ -105,6 +105,14 @@ func (e *Engine) doCall(st *State, fr *Frame, dst *ssa.Call, cc *ssa.CallCommon,
 	if strings.HasPrefix(fn.Name(), "verif") && !strings.HasPrefix(fn.Name(), "verifStub_") {
 		r, handled := e.harnessCall(st, fn, args)
 		if handled {
+			if sf, isSplit := r.(splitFork); isSplit && !st.dead {
+				base := st.split
+				return e.applyFork(st, sf.ForkVal, func(t *State, v Value) {
+					t.split = base + "/" + sf.Key + "=" + describe(v)
+					t.sig = ""
+					setResult(t, v)
+				})
+			}
 			if !st.dead {
 				setResult(st, r)
 			}
@@ -311,6 +319,12 @@ func (e *Engine) findCut(fn *ssa.Function) *ssa.Function {
 	return nil
 }
 
+// splitFork is a ForkVal whose alternatives must stay separate states (verifConcretize).
+type splitFork struct {
+	ForkVal
+	Key string
+}
+
 // ForkVal lets an intrinsic return several guarded alternatives.
 type ForkVal struct {
 	Conds []*Term
@@ -507,7 +521,7 @@ func (e *Engine) mergeStates(outs []*State, basePC, mark int, dst *ssa.Call) (*S
 	f0 := outs[0].top()
 	for _, o := range outs[1:] {
 		f := o.top()
-		if len(o.frames) != len(outs[0].frames) || f.block != f0.block || f.ip != f0.ip || f.prev != f0.prev {
+		if len(o.frames) != len(outs[0].frames) || f.block != f0.block || f.ip != f0.ip || f.prev != f0.prev || o.split != outs[0].split {
 			return nil, false
 		}
 	}
